@@ -682,6 +682,11 @@ fn judge_c08(t: &SupplyTrace, o: &SupplyOutcome, ev: &LevelEval, root_sig_bad: b
                 }
                 bad = b;
             }
+            // (a level whose step names are out of scope — glob characters, repeated names — owns files the oracle
+            // cannot attribute: whether a delegated level below it is reachable is then not judged)
+            if bad.len() == 1 && bad[0] == "level-not-reachable" && levels.values().any(|l| l.out_of_scope) {
+                continue;
+            }
             if !bad.is_empty() {
                 f.push(finding(
                     "C08",
